@@ -26,6 +26,10 @@ CHECKS = {
    technique="TLA+ trace spec HalTrace.FillOK (result is a function of the inputs only + frame condition) over TLC-generated corpora run twice from independent garbage fills inside canary-guarded windows",
    text="Each descriptor is executed twice per back-end from two independent garbage fills of every writable byte (result buffer incl. other columns and slack limbs, scratch); the specification's post-state does not mention the pre-state of the result column (except for the accumulate forms where it is an input), so both runs must produce the same specified column and every byte outside it must be unchanged. Column counts 1..3 and target columns vary per descriptor.",
    note="HAL operations (vec_znx, big, dft, svp, vmp, cnv, normalisation) so far; core-level operations pending. Frame comparison is a byte compare by the harness; equality across fills is decided by TLC."),
+ "C12": dict(level=MC, design="§2 C12",
+   technique="TLA+ arena model Scratch.tla: model-checked discipline + replay of the H4 take log of every scratch-taking call run in an exact-size canary-guarded window; size-query monotonicity table validated by TLC",
+   text="Scratch.tla models take_slice_aligned exactly (64-byte re-alignment, failure iff aligned bytes < request, remainder/taken hand-out). TLC checks the discipline over all call/return/split interleavings and refutes the raw-sum lemma the size formulas implicitly rely on. Every scratch-taking HAL call of the TLC-generated corpora then runs with a scratch window of exactly the declared size on 4 back-ends x 2 scratch fills; hook H4 logs each take and TLC replays the log against the arena model (no failed take, takes derive from the window, high-water <= declared, canaries intact) and requires results independent of the scratch fill.",
+   note="20 HAL (operation, tmp_bytes) pairs so far of ~120; core/CKKS/bin-fhe pairs pending. The replay cannot observe releases, so two simultaneously live overlapping takes are only excluded by the model check of the discipline plus Rust's borrow rules."),
 }
 NA_REASON = "check not built yet in this round (planned in DESIGN.md §2); not claimed"
 
